@@ -23,6 +23,7 @@ type trAsk struct {
 	Had bool `json:"had"`
 }
 type trSt struct {
+	Anom   []string `json:"anom"` // members of a transaction group that were not treated alike (bulk runs)
 	Body   []bool  `json:"body"`
 	ReqAt  []int   `json:"reqAt"`
 	Trk    [][]int `json:"trk"`
@@ -51,18 +52,39 @@ type trH struct {
 	nblk   int
 	asked  []trAsk
 	forgot [][]int
+	k      int                    // bulk factor: every transaction id of the specification stands for a group of k real transactions
+	mem    map[int][]*wire.MsgTx  // group -> its members (member 0 is the transaction of the tx harness)
+	grp    map[bitcoin.Hash32]int // member txid -> group
+	anom   []string
 }
 
-func newTrH(t *testing.T, nt, nc int) *trH {
+func newTrH(t *testing.T, nt, nc int, bulk ...int) *trH {
 	ins := make([][]int, nt)
 	rel := make([]bool, nt)
 	for i := range ins {
 		ins[i] = []int{i + 1}
 		rel[i] = true
 	}
-	r := &trH{t: t, nt: nt, nc: nc, h: newTxH(t, nt, ins, rel, [][]int{}), forgot: make([][]int, nt)}
+	r := &trH{t: t, nt: nt, nc: nc, h: newTxH(t, nt, ins, rel, [][]int{}), forgot: make([][]int, nt), k: 1,
+		mem: map[int][]*wire.MsgTx{}, grp: map[bitcoin.Hash32]int{}}
+	if len(bulk) > 0 && bulk[0] > 1 {
+		r.k = bulk[0]
+	}
 	for i := range r.forgot {
 		r.forgot[i] = []int{}
+	}
+	for g := 1; g <= nt; g++ {
+		r.mem[g] = []*wire.MsgTx{r.h.txs[g]}
+		for j := 1; j < r.k; j++ { // the same transaction spending another output of the same (unknown) parent: no conflicts
+			cp := r.h.txs[g].Copy()
+			tx := &cp
+			tx.TxIn[0].PreviousOutPoint.Index = uint32(j)
+			r.mem[g] = append(r.mem[g], tx)
+			r.h.idOfTx[*tx.TxHash()] = g
+		}
+		for _, tx := range r.mem[g] {
+			r.grp[*tx.TxHash()] = g
+		}
 	}
 	ctx := vCtx()
 	n := r.h.n
@@ -87,7 +109,6 @@ func newTrH(t *testing.T, nt, nc int) *trH {
 	return r
 }
 
-func (r *trH) txid(t int) bitcoin.Hash32 { return *r.h.txs[t].TxHash() }
 
 // confirmInBlock builds a block with transaction t on top of the node's tip, announces it, delivers it and lets the real
 // block processor handle it.
@@ -100,7 +121,9 @@ func (r *trH) confirmInBlock(t int) error {
 	hdr.Timestamp = uint32(1600001000 + r.nblk)
 	mb := wire.NewMsgBlock(hdr)
 	mb.AddTransaction(csCoinbase(900 + r.nblk))
-	mb.AddTransaction(r.h.txs[t])
+	for _, tx := range r.mem[t] {
+		mb.AddTransaction(tx)
+	}
 	root, _ := mb.CalculateMerkleHash()
 	mb.Header.MerkleRoot = *root
 	msg := wire.NewMsgHeaders()
@@ -129,6 +152,10 @@ func (r *trH) collect(c int) {
 		ch = r.un[c-1].outgoing.Channel
 	}
 	mtxs, _, _ := r.h.n.memPool.VerifProject()
+	// what the sender goroutine would put on the wire: the queued message objects as they are once the call has returned
+	cnt := map[bitcoin.Hash32]int{}
+	var order []int
+	seen := map[int]bool{}
 	for len(ch) > 0 {
 		m := <-ch
 		if gd, ok := m.(*wire.MsgGetData); ok {
@@ -136,10 +163,33 @@ func (r *trH) collect(c int) {
 				if iv.Type != wire.InvTypeTx {
 					continue
 				}
-				if id, ok := r.h.idOfTx[iv.Hash]; ok {
-					r.asked = append(r.asked, trAsk{C: c, T: id, At: r.clock, Had: mtxs[iv.Hash].Body})
+				if g, ok := r.grp[iv.Hash]; ok {
+					cnt[iv.Hash]++
+					if !seen[g] {
+						seen[g] = true
+						order = append(order, g)
+					}
 				}
 			}
+		}
+	}
+	for _, g := range order {
+		lo, hi, had := 1<<30, 0, false
+		for _, tx := range r.mem[g] {
+			h := *tx.TxHash()
+			if cnt[h] < lo {
+				lo = cnt[h]
+			}
+			if cnt[h] > hi {
+				hi = cnt[h]
+			}
+			had = had || mtxs[h].Body
+		}
+		if lo != hi {
+			r.anom = append(r.anom, fmt.Sprintf("connection %d at %d: members of group %d requested between %d and %d times in one go", c, r.clock, g, lo, hi))
+		}
+		for i := 0; i < hi; i++ {
+			r.asked = append(r.asked, trAsk{C: c, T: g, At: r.clock, Had: had})
 		}
 	}
 }
@@ -155,8 +205,9 @@ func (r *trH) step(a trAct) (res string) {
 	switch a.A {
 	case "Inv":
 		inv := wire.NewMsgInv()
-		h := r.txid(a.T)
-		inv.AddInvVect(wire.NewInvVect(wire.InvTypeTx, &h))
+		for _, tx := range r.mem[a.T] {
+			inv.AddInvVect(wire.NewInvVect(wire.InvTypeTx, tx.TxHash()))
+		}
 		if a.C == 0 {
 			n.handleMessage(ctx, inv)
 		} else if err := r.un[a.C-1].handleMessage(ctx, inv); err != nil {
@@ -164,7 +215,9 @@ func (r *trH) step(a trAct) (res string) {
 		}
 		r.collect(a.C)
 	case "Body":
-		n.handleMessage(ctx, r.h.txs[a.T])
+		for _, tx := range r.mem[a.T] {
+			n.handleMessage(ctx, tx)
+		}
 		for len(n.unconfTxChannel.Channel) > 0 {
 			x := <-n.unconfTxChannel.Channel
 			if err := n.processUnconfirmedTx(ctx, x); err != nil {
@@ -203,20 +256,27 @@ func (r *trH) step(a trAct) (res string) {
 
 func (r *trH) project() trSt {
 	n := r.h.n
-	s := trSt{Clock: r.clock, Asked: append([]trAsk{}, r.asked...), Trk: [][]int{}, Forgot: [][]int{}}
+	s := trSt{Clock: r.clock, Asked: append([]trAsk{}, r.asked...), Trk: [][]int{}, Forgot: [][]int{}, Anom: append([]string{}, r.anom...)}
 	for _, f := range r.forgot {
 		s.Forgot = append(s.Forgot, append([]int{}, f...))
 	}
 	mtxs, _, reqs := n.memPool.VerifProject()
 	now := time.Now()
 	for t := 1; t <= r.nt; t++ {
-		id := r.txid(t)
-		s.Body = append(s.Body, mtxs[id].Body)
-		ra := -1
-		if at, ok := reqs[id]; ok {
-			ra = r.clock - int((now.Sub(at)+trTick/2)/trTick)
+		for j, tx := range r.mem[t] {
+			id := *tx.TxHash()
+			ra := -1
+			if at, ok := reqs[id]; ok {
+				ra = r.clock - int((now.Sub(at)+trTick/2)/trTick)
+			}
+			if j == 0 {
+				s.Body = append(s.Body, mtxs[id].Body)
+				s.ReqAt = append(s.ReqAt, ra)
+			} else if mtxs[id].Body != s.Body[t-1] || ra != s.ReqAt[t-1] {
+				s.Anom = append(s.Anom, fmt.Sprintf("member %d of group %d: body %v requested at %d, member 0: body %v requested at %d", j, t, mtxs[id].Body, ra, s.Body[t-1], s.ReqAt[t-1]))
+				break
+			}
 		}
-		s.ReqAt = append(s.ReqAt, ra)
 	}
 	for c := 0; c < r.nc; c++ {
 		tk := n.txTracker
@@ -224,9 +284,16 @@ func (r *trH) project() trSt {
 			tk = r.un[c-1].txTracker
 		}
 		l := []int{}
+		per := map[int]int{}
 		for h := range tk.VerifProject() {
-			if id, ok := r.h.idOfTx[h]; ok {
-				l = append(l, id)
+			if g, ok := r.grp[h]; ok {
+				per[g]++
+			}
+		}
+		for g, c2 := range per {
+			l = append(l, g)
+			if c2 != r.k {
+				s.Anom = append(s.Anom, fmt.Sprintf("connection %d tracks %d of the %d members of group %d", c, c2, r.k, g))
 			}
 		}
 		sort.Ints(l)
@@ -239,6 +306,7 @@ func TestVerifReplayTxRequests(t *testing.T) {
 	var in struct {
 		NT      int `json:"nt"`
 		NC      int `json:"nc"`
+		Bulk    int `json:"bulk"`
 		Scripts []struct {
 			ID    string  `json:"id"`
 			Steps []trAct `json:"steps"`
@@ -248,7 +316,7 @@ func TestVerifReplayTxRequests(t *testing.T) {
 	tr := vOpenTrace(t)
 	defer tr.Close()
 	for _, sc := range in.Scripts {
-		r := newTrH(t, in.NT, in.NC)
+		r := newTrH(t, in.NT, in.NC, in.Bulk)
 		tr.Emit(trLine{Tr: sc.ID, Act: trAct{A: "init"}, St: r.project()})
 		for _, a := range sc.Steps {
 			skip := r.step(a)
